@@ -132,7 +132,7 @@ def rename_sym(f: Formula, old: str, new: str) -> Formula:
     return map_atoms(f, lambda a: pat.sub(new, a))
 
 
-_SYM = re.compile(r"(?<![A-Za-z0-9_])(x\d+|e|@)(?![A-Za-z0-9_])")
+_SYM = re.compile(r"(?<![A-Za-z0-9_])(x\d+|e|@|•\d+)(?![A-Za-z0-9_])")
 
 
 def mentions(a: str, sym: str) -> bool:
@@ -366,10 +366,11 @@ class Coll(V):
     parts: list = field(default_factory=list)
     removals: list = field(default_factory=list)  # (guard, text, fi, node): elements were removed - not modelled
     label: str = ""
-    keyed: bool = False  # a dict used as an ordered set (dict.fromkeys): item stores add the key
+    keyed: bool = False  # a dict used as an ordered set (dict.fromkeys, {}): item stores add the key
+    stores: list = field(default_factory=list)  # keyed: (key of the key value, stored value) - look-ups of what was stored
 
     def snapshot(self) -> "Coll":
-        return Coll(list(self.parts), list(self.removals), self.label, self.keyed)
+        return Coll(list(self.parts), list(self.removals), self.label, self.keyed, list(self.stores))
 
 
 def root_elem(v: V) -> "Elem | None":
@@ -512,10 +513,13 @@ class Interp:
         self.notes: list[str] = []
         self.atom_taint: dict[str, frozenset] = {}
         self.predicates: dict[str, FuncInfo] = {}  # collapsed pure predicates: atom prefix -> function
+        self.predicate_names: dict[str, set] = {}
+        self.int_args: list = []  # the further arguments (prefix) of the calls of the named internal test
         self.int_calls: list[tuple[FuncInfo, ast.AST]] = []
         self.visited: set[str] = set()
         self._module_frames: dict[str, Frame] = {}
         self._class_attrs: dict[tuple[str, str], V] = {}
+        self._bound: dict = {}  # markers of variables bound by closures
         self.int_def: "Formula | None" = None  # what INT[x0] means in terms of other atoms about x0 (set by the rules)
         self._run_conds: list[Formula] = []  # conditions attached to the element of the current run (filtering dict comprehension)
 
@@ -575,8 +579,11 @@ class Interp:
         saved_loops, saved_int, saved_frames = self.loops, self.internal_fns, self.frames
         self.loops, self.internal_fns, self.frames = [lp], set(), []
         try:
-            args = [Elem("x0", lp), *[Unknown(p, maybe_none=False) for p in fi.param_names[1:]]]
-            res = self.call_function(fi, args[: len(fi.param_names)], {}, None, None)
+            rest, kw = (self.int_args[0] if self.int_args else ([Unknown(p, maybe_none=False) for p in fi.param_names[1:]], {}))
+            kw = {k: v for k, v in kw.items() if k != fi.param_names[0]}
+            args = [Elem("x0", lp), *rest][: len(fi.param_names)]
+            res = self.call_function(fi, args, kw, None, None)
+            res = self.collapse_predicate(fi, Fn(fi), args, kw, res)
             return self.truth(res)
         except Exception:  # noqa: BLE001 - no definition then
             return None
@@ -1046,28 +1053,49 @@ class Interp:
         generic: list[Part] = []
         for p in c.parts:
             lp = p.loop if p.kind == "adds" and p.loop is not None and p.loop.active and any(l is p.loop for l in self.loops) else None
+            # (whether an element of a part the model only knows partially - a slice, a loop left by break - is there at all
+            # is an open fact)
+            pg = p.guard if not p.partial else conj([p.guard, self.free(f"PRESENT[{p.what or p.kind}@{getattr(p.node, 'lineno', 0)}]", frozenset({"GAP"}))])
             if p.kind == "adds" and lp is not None:
                 e = Elem(p.sym, lp)
                 name = Importee(e) if p.items and p.items[0] == "import" else e
                 if p.what == "self":
-                    runs.append((name, p.guard, None, None))
+                    runs.append((name, pg, None, None))
                 else:
                     a = Anc(name)
-                    runs.append((a, p.guard, None, key(a)))
+                    runs.append((a, pg, None, key(a)))
             elif p.kind == "lit" and len(p.items) <= 6:
                 for it in p.items:
-                    runs.append((it, p.guard, None, None))
+                    runs.append((it, pg, None, None))
             else:
                 generic.append(p)
         if generic or not runs:
-            if not c.parts and not isinstance(src, (Coll, NoneV)):
-                pass
+            # elements that are values derived from the element of another loop (records, lineages) are iterated per kind of
+            # value: the collection is the union of these groups
+            groups: list[tuple[object, list[Part]]] = []
+            for p in generic:
+                if p.kind == "filter" and p.template:
+                    sig: object = ("record", id(p.template[1])) if p.template[0] == "record" else ("lineage", tuple((q.what, q.items, id(q.node)) for q in p.template))
+                else:
+                    sig = None
+                for g_sig, members in groups:
+                    if g_sig == sig:
+                        members.append(p)
+                        break
+                else:
+                    groups.append((sig, [p]))
+            if not groups:
+                groups = [(None, [])]
             depth = len(self.loops)
-            lp = Loop(f"x{depth}", Coll(generic, list(c.removals), c.label), node, fr.fi)
-            tpls = [p.template for p in generic if p.kind == "filter"]
-            if tpls and tpls[0] and all(p.kind == "filter" for p in generic) and all(t == tpls[0] or [(q.what, q.items, q.node) for q in t] == [(q.what, q.items, q.node) for q in tpls[0]] for t in tpls):
-                lp.template = tpls[0]  # type: ignore[attr-defined]
-            runs.append((None, TRUE, lp, lp.sym))
+            for sig, members in groups:
+                lp = Loop(f"x{depth}", Coll(members, list(c.removals), c.label), node, fr.fi)
+                rg: Formula = TRUE
+                if sig is not None:
+                    lp.template = members[0].template  # type: ignore[attr-defined]
+                    lp.template_loop = members[0].loop  # type: ignore[attr-defined]
+                    # a value of this kind exists for an element exactly under the conditions of its parts
+                    rg = disj(rename_sym(q.guard, q.sym, lp.sym) for q in members)
+                runs.append((None, rg, lp, lp.sym))
         return runs
 
     def exec_for(self, fr: Frame, s: ast.For) -> Formula:
@@ -1201,6 +1229,8 @@ class Interp:
         if value is None:
             assert lp is not None
             tpl = getattr(lp, "template", None)
+            if tpl and tpl[0] == "record":
+                return self.instantiate(tpl[1], lp.template_loop, lp)  # type: ignore[attr-defined]
             if tpl:
                 # the elements are collections derived from an element: the template instantiated for the generic element
                 old = tpl[0].sym
@@ -1304,9 +1334,9 @@ class Interp:
             a = dep[0]
             g1, g0 = subst_atom(g, a, TRUE), subst_atom(g, a, FALSE)
             if valid(g0, g1):
-                return subst_atom(g, a, self._closure_atom("∃", a))
+                return subst_atom(g, a, self._closure_atom("∃", a, var))
             if valid(g1, g0):
-                return subst_atom(g, a, self._closure_atom("∀", a))
+                return subst_atom(g, a, self._closure_atom("∀", a, var))
         # general case: split off the conjuncts that do not depend on the variable
         if g[0] == "and":
             indep = [h for h in g[1] if not any(mentions(a, var) for a in atoms_of(h))]
@@ -1314,13 +1344,27 @@ class Interp:
             if indep:
                 return conj([*indep, self.exists(conj(depc), var)])
         name = f"∃{var}.{show(g)}"
+        if not var.startswith("anc:"):
+            k = (var, name)
+            if k not in self._bound:
+                self._bound[k] = f"•{len(self._bound) + 1}"
+            name = re.sub(r"(?<![A-Za-z0-9_:])" + re.escape(var) + r"(?![A-Za-z0-9_])", self._bound[k], name)
         t: frozenset = frozenset({"GAP"})  # the quantifier structure is not resolved
         for a in dep:
             t |= self.taint_of_atom(a)
         return self.free(name, t)
 
-    def _closure_atom(self, q: str, a: str) -> Formula:
-        return self.free(q + a, self.taint_of_atom(a))
+    def _closure_atom(self, q: str, a: str, var: str = "") -> Formula:
+        """`∃A[..var..]`: the variable bound by the closure is not the element symbol of anything any more - an element symbol
+        (not the ancestor variable `anc:x`, whose x stays free) is replaced by a marker, so that renaming the element of a part
+        leaves the closed fact alone."""
+        t = self.taint_of_atom(a)
+        if var and not var.startswith("anc:"):
+            k = (var, a)
+            if k not in self._bound:
+                self._bound[k] = f"•{len(self._bound) + 1}"
+            a = re.sub(r"(?<![A-Za-z0-9_:])" + re.escape(var) + r"(?![A-Za-z0-9_])", self._bound[k], a)
+        return self.free(q + a, t)
 
     def taint_of_atom(self, a: str) -> frozenset:
         t = self.atom_taint.get(self._norm_atom(a), frozenset())
@@ -1406,7 +1450,12 @@ class Interp:
         elif isinstance(target, ast.Subscript):
             recv = self.ev(fr, target.value)
             if isinstance(recv, Coll):
-                self.coll_add(fr, recv, self.ev(fr, target.slice) if recv.keyed else v, stmt)
+                if recv.keyed:
+                    kv = self.ev(fr, target.slice)
+                    self.coll_add(fr, recv, kv, stmt)
+                    recv.stores.append((key(kv), v))
+                else:
+                    self.coll_add(fr, recv, v, stmt)
             elif isinstance(recv, DictV):
                 kv = self.ev(fr, target.slice)
                 recv.taint |= self.value_taint(v) | self.value_taint(kv)
@@ -1480,6 +1529,13 @@ class Interp:
                 # collection holds one such value per element that passes - like the element itself, with the value as template
                 c.parts.append(Part("filter", g, src=lp0.src, sym=lp0.sym, fi=fi, node=node, partial=lp0.broken, loop=lp0, template=tuple(v.parts)))
                 return
+        if isinstance(v, TupleV):
+            roots = [x for x in (self._record_root(i) for i in v.items) if x is not None]
+            if roots and all(x.loop is roots[0].loop for x in roots) and roots[0].loop.active and any(l is roots[0].loop for l in self.loops) and any(isinstance(i, Elem) for i in v.items):
+                # a record about the current element (the element itself plus what was computed for it): one per element that passes
+                lp0 = roots[0].loop
+                c.parts.append(Part("filter", g, src=lp0.src, sym=lp0.sym, fi=fi, node=node, partial=lp0.broken, loop=lp0, template=("record", v)))
+                return
         if r is not None and r.loop.active:
             kindtag = ("import",) if isinstance(v, Importee) or (isinstance(v, Anc) and isinstance(v.of, Importee)) else ("name",)
             if isinstance(v, Elem):
@@ -1492,6 +1548,34 @@ class Interp:
                 c.parts.append(Part("lit", g, items=(v,), fi=fi, node=node))
         else:
             c.parts.append(Part("lit", g, items=(v,), fi=fi, node=node))
+
+    @staticmethod
+    def _record_root(v: V) -> "Elem | None":
+        r = root_elem(v)
+        if r is not None:
+            return r
+        if isinstance(v, Coll) and v.parts and all(p.loop is v.parts[0].loop and p.loop is not None for p in v.parts):
+            lp = v.parts[0].loop
+            return Elem(lp.sym, lp)
+        return None
+
+    def instantiate(self, v: V, old: Loop, new: Loop) -> V:
+        """A value computed for the element of one loop, re-read as the value for the generic element of another loop."""
+        if isinstance(v, Elem):
+            return Elem(new.sym, new) if v.loop is old else v
+        if isinstance(v, Importee):
+            return Importee(self.instantiate(v.elem, old, new))  # type: ignore[arg-type]
+        if isinstance(v, Anc):
+            return Anc(self.instantiate(v.of, old, new))
+        if isinstance(v, TupleV):
+            return TupleV([self.instantiate(i, old, new) for i in v.items])
+        if isinstance(v, BoolV):
+            return BoolV(rename_sym(v.f, old.sym, new.sym))
+        if isinstance(v, Coll) and v.parts and all(p.loop is old for p in v.parts):
+            return Coll([replace(q, guard=rename_sym(q.guard, old.sym, new.sym), sym=new.sym, src=new.src, loop=new) for q in v.parts], label=v.label, keyed=v.keyed)
+        if isinstance(v, Unknown) and mentions(v.text, old.sym) and old.sym != new.sym:
+            return Unknown(re.sub(r"(?<![A-Za-z0-9_])" + re.escape(old.sym) + r"(?![A-Za-z0-9_])", new.sym, v.text), v.taint, v.maybe_none, v.patterns, v.flag)
+        return v
 
     def coll_add(self, fr: Frame, c: Coll, v: V, node: ast.AST) -> None:
         self._add_value(c, v, self.guard(), fr.fi, node)
@@ -1547,7 +1631,7 @@ class Interp:
             lpv = v.parts[0].loop
             alts = []
             for p in c.parts:
-                if p.kind == "filter" and p.template and p.src is not None:
+                if p.kind == "filter" and p.template and p.template[0] != "record" and p.src is not None:
                     if lpv.src.parts == p.src.parts or self.member(Elem(lpv.sym, lpv), p.src) == TRUE:
                         alts.append(rename_sym(p.guard, p.sym, lpv.sym))
                     else:
@@ -1573,7 +1657,7 @@ class Interp:
             elif p.kind == "adds":
                 r = root_elem(v)
                 same_kind = (p.what == "self" and isinstance(v, Importee) and p.items[:1] == ("import",)) or (p.what == "parents" and isinstance(v, Anc) and isinstance(v.of, Importee) and p.items[:1] == ("import",)) or (p.what == "parents" and isinstance(v, Anc) and isinstance(v.of, Elem) and p.items[:1] == ("name",))
-                if r is not None and same_kind and p.src is not None and r.loop is not p.loop and r.loop.src.parts == p.src.parts:
+                if r is not None and same_kind and p.src is not None and r.loop is not p.loop and self._within(r.loop.src, p.src):
                     # the names of all elements of the very collection the element is taken from: it is among them when the
                     # condition of the part holds for it
                     alts.append(rename_sym(p.guard, p.sym, r.sym))
@@ -1583,6 +1667,13 @@ class Interp:
                 alts.append(self.free(f"IN[{k},{p.what}-of-{c.label or 'collection'}{tag}]", taint_of(v)))
             else:
                 for it in p.items:
+                    if isinstance(v, Const) and isinstance(it, Const):
+                        if v.value == it.value:
+                            alts.append(p.guard)
+                        continue
+                    if it is v:
+                        alts.append(p.guard)
+                        continue
                     alts.append(conj([p.guard, self.free("EQ[" + ",".join(sorted([k, key(it)])) + "]", self.cmp_taint(v, it))]))
         return disj(alts)
 
@@ -1611,6 +1702,14 @@ class Interp:
                     g = self.exists(g, p.sym)
                 alts.append(g)
         return disj(alts)
+
+    def _within(self, a: Coll, b: Coll, depth: int = 0) -> bool:
+        """Every element of `a` is an element of `b` (the same parts, or filters / records over it)."""
+        if a.parts == b.parts:
+            return True
+        if depth > 3 or not a.parts:
+            return False
+        return all(p.kind == "filter" and p.src is not None and self._within(p.src, b, depth + 1) for p in a.parts)
 
     @staticmethod
     def _drawn_from(e: Elem) -> set:
@@ -1741,7 +1840,7 @@ class Interp:
         return t
 
     def compare1(self, fr: Frame, le: ast.expr, lv: V, op: ast.cmpop, re_: ast.expr, rv: V) -> Formula:
-        if isinstance(lv, AltV) and not isinstance(op, (ast.In, ast.NotIn)):
+        if isinstance(lv, AltV):
             return disj(conj([g, self.compare1(fr, le, x, op, re_, rv)]) for g, x in self.live(lv))
         if isinstance(rv, AltV) and not isinstance(op, (ast.In, ast.NotIn)):
             return disj(conj([g, self.compare1(fr, le, lv, op, re_, x)]) for g, x in self.live(rv))
@@ -1870,6 +1969,8 @@ class Interp:
                 return DictCompV(e, fr, dict(fr.env))
             self.note(f"{fr.fi.qualname}: dictionary `{norm(e, 40)}` not modelled (what is read from it is unknown)")
             return DictV(f"{{dict@{e.lineno}}}", frozenset({"GAP"}))
+        if isinstance(e, ast.Dict) and not e.keys:
+            return Coll(label=f"{{dict@{e.lineno}}}", keyed=True)
         if isinstance(e, ast.Dict):
             d = DictV(f"{{dict@{e.lineno}}}")
             for k_, v in zip(e.keys, e.values):
@@ -1902,9 +2003,20 @@ class Interp:
             v = self.ev(fr, e.value)
             if isinstance(v, TupleV) and isinstance(e.slice, ast.Constant) and isinstance(e.slice.value, int) and -len(v.items) <= e.slice.value < len(v.items):
                 return v.items[e.slice.value]
+            if isinstance(v, Coll) and v.keyed and not isinstance(e.slice, ast.Slice):
+                sl = self.ev(fr, e.slice)
+                for k_, val in reversed(v.stores):
+                    if k_ == key(sl):
+                        return val  # what was stored under this very key (memo table)
+                return Unknown(f"{key(v)}[{key(sl)}]", self.value_taint(v) | taint_of(sl) | {"GAP"})
             if isinstance(v, Coll):
                 if isinstance(e.slice, ast.Slice):
-                    return self.copy_of(v)
+                    c = self.copy_of(v)
+                    if e.slice.lower is not None or e.slice.upper is not None or e.slice.step is not None:
+                        # a proper slice: which elements remain is not modelled
+                        self.note(f"{fr.fi.qualname}: `{norm(e, 40)}` takes a slice of a collection: which elements remain is not modelled")
+                        c.parts = [replace(q, partial=True) for q in c.parts]
+                    return c
                 sl = self.ev(fr, e.slice)
                 el = getattr(sl, "_elem", None)
                 r = root_elem(el) if el is not None else None
@@ -2212,6 +2324,7 @@ class Interp:
         fi = f.fi
         if fi.fq in self.internal_fns:
             self.int_calls.append((fr.fi, e))
+            self.int_args.append((list(args[1:]), dict(kwargs)))
             subject = args[0] if args else next(iter(kwargs.values()), Unknown("?"))
             return BoolV(self.int_atom(subject))
         if fi.name == "get_parent_modules" and fi.cls is None and (args or kwargs):
@@ -2246,9 +2359,16 @@ class Interp:
         others = [a for a in [*args, *kwargs.values()] if a is not subj[0]]
         if any(taint_of(o) & {"FLAG", "EXT"} for o in others):
             return res
-        name = fi.name if fi.cls is None else f"{fi.cls.name}.{fi.name}"
-        self.predicates[f"P<{name}>"] = fi
-        return BoolV(atom(f"P<{name}>[{key(subj[0])}]"))
+        # named after what it tests, not after the function: a second copy of the same test (an inlined duplicate, a method
+        # with the same body) is the same atom.  (Values print as the expression that created them, wherever they travelled.)
+        import hashlib
+
+        r = root_elem(subj[0])
+        sig = show(rename_sym(res.f, r.sym, "§")) if r is not None else show(res.f)
+        name = f"P<{hashlib.sha1(sig.encode()).hexdigest()[:8]}>"
+        self.predicates.setdefault(name, fi)
+        self.predicate_names.setdefault(name, set()).add(fi.qualname)
+        return BoolV(atom(f"{name}[{key(subj[0])}]"))
 
     def construct(self, fr: Frame, ci: ClassInfo, args: list, kwargs: dict, e: ast.Call) -> V:
         if ci.name == SINK_CLASS or any(c.name == SINK_CLASS for c in self.repo.mro(ci)):
@@ -2356,6 +2476,13 @@ class Interp:
             return EnumV(args[0])
         if name in ("itertools.groupby", "groupby") and len(args) == 1 and not kwargs:
             return EnumV(args[0], grouped=True)
+        if name in ("dict", "collections.OrderedDict", "OrderedDict") and not args and not kwargs:
+            return Coll(label=f"{name}()@{e.lineno}", keyed=True)
+        if name in ("dict", "collections.OrderedDict", "OrderedDict") and len(args) == 1 and isinstance(args[0], Coll) and args[0].keyed and not kwargs:
+            c = self.copy_of(args[0])
+            c.keyed = True
+            c.stores = list(args[0].stores)
+            return c
         if name in ("dict", "collections.defaultdict", "defaultdict", "collections.OrderedDict", "OrderedDict", "collections.Counter", "Counter"):
             return DictV(f"{name}()@{e.lineno}", t | (frozenset({"GAP"}) if args else frozenset()))
         if name == "map":
@@ -2483,7 +2610,7 @@ class Interp:
                 return BoolV(self.free(f"STR[{key(recv)}].{attr}({','.join(key(a) for a in args)})", self._taints(args, kwargs)))
             return Unknown(f"{key(recv)}.{attr}({','.join(key(a) for a in args)})", self._taints(args, kwargs), False if attr in self.STR_PRESERVING else None)
         # ---- collections
-        if isinstance(recv, Coll) or (isinstance(recv, Unknown) and (hasattr(recv, "_coll") or "PARSED" in recv.taint) and attr in ("append", "add", "extend", "update", "copy", "union", "difference", "intersection", "insert", "remove", "discard", "clear", "pop", "popleft", "appendleft", "extendleft", "setdefault", "difference_update", "intersection_update", "sort", "reverse", "items", "keys", "values", "issubset", "issuperset", "isdisjoint", "count", "index", "__contains__")):
+        if isinstance(recv, Coll) or (isinstance(recv, Unknown) and (hasattr(recv, "_coll") or "PARSED" in recv.taint) and attr in ("append", "add", "extend", "update", "copy", "union", "difference", "intersection", "insert", "remove", "discard", "clear", "pop", "popleft", "appendleft", "extendleft", "setdefault", "get", "difference_update", "intersection_update", "sort", "reverse", "items", "keys", "values", "issubset", "issuperset", "isdisjoint", "count", "index", "__contains__")):
             return self.coll_method(fr, self.as_coll(recv), attr, args, kwargs, e)
         # ---- vocabulary objects
         if isinstance(recv, Opaque):
@@ -2564,7 +2691,16 @@ class Interp:
             return NoneV()
         if attr == "setdefault" and args and c.keyed:
             self.coll_add(fr, c, args[0], e)
-            return Unknown(f"{key(c)}.setdefault(..)")
+            if len(args) > 1:
+                c.stores.append((key(args[0]), args[1]))
+                return args[1]
+            return NoneV()
+        if attr == "get" and args and c.keyed:
+            for k_, val in reversed(c.stores):
+                if k_ == key(args[0]):
+                    # stored before (by this or an earlier iteration of the same code) or missing
+                    return self.mk_alt([(self.member(args[0], c), val), (f_not(self.member(args[0], c)), args[1] if len(args) > 1 else NoneV())])
+            return Unknown(f"{key(c)}.get(..)", self.value_taint(c) | {"GAP"})
         if attr == "insert" and len(args) == 2:
             self.coll_add(fr, c, args[1], e)
             return NoneV()
